@@ -631,6 +631,8 @@ def dev_stmt(env, kind, name):
         ms = ["write", "line", "message", "clear", "display", "backlight", "glyph", "progress", "animate"]
         if o.get("backlight_pin"):
             ms.append("brightness")
+        if env.in_fn is not None:
+            ms.remove("animate")      # listed finding F-C06-lcd-animate-in-function
         m = rng.choice(ms)
         env.feat("LCD." + m)
         txt = lambda: gen_str(env, 1)[0]
@@ -1210,9 +1212,13 @@ def shapes_of(src: str):
         for n in ast.walk(f):
             if isinstance(n, ast.Call) and isinstance(n.func, ast.Attribute) and n.func.attr == "measure_distance":
                 out.add("fn-uses-ultrasonic")
+            if isinstance(n, ast.Call) and isinstance(n.func, ast.Attribute) and n.func.attr == "animate":
+                out.add("fn-lcd-animate")
             if isinstance(n, ast.Call) and isinstance(n.func, ast.Name) and n.func.id in order and order[n.func.id] > order[f.name]:
                 out.add("fn-forward-call")
     for n in ast.walk(tree):
+        if isinstance(n, ast.Constant) and isinstance(n.value, str) and not n.value.isprintable():
+            out.add("non-printable-literal")
         if isinstance(n, ast.BinOp) and isinstance(n.op, ast.Pow):
             out.add("pow")
         if isinstance(n, ast.AugAssign) and isinstance(n.op, ast.Pow):
@@ -1234,3 +1240,11 @@ def shapes_of(src: str):
 
 def _is_strlit(n):
     return (isinstance(n, ast.Constant) and isinstance(n.value, str)) or (isinstance(n, ast.JoinedStr) and not any(isinstance(v, ast.FormattedValue) for v in n.values))
+
+
+def string_constants(src: str):
+    try:
+        tree = ast.parse(src)
+    except SyntaxError:
+        return []
+    return [n.value for n in ast.walk(tree) if isinstance(n, ast.Constant) and isinstance(n.value, str)]
